@@ -41,15 +41,20 @@ Definition is_any (t : ty) : bool := match t with TAnyS | TAnyR => true | _ => f
 Definition is_prim (t : ty) : bool :=
   match t with TInt8 | TInt | TBool | TStr => true | _ => false end.
 
-Definition is_struct (t : ty) : bool := match t with TStruct _ => true | _ => false end.
+Definition same_container (a b : ty) : bool :=
+  match a, b with
+  | TArr _, TArr _ | TDict _ _, TDict _ _ => true
+  | _, _ => false
+  end.
 
 (* the least common supertype on the fragment (sema/type_tags.go LeastCommonSuperType);
    None = no join, or a join outside the fragment (Integer, HashableStruct, [T] vs [U], ...).
    - equal types join to themselves;
    - otherwise optionals are stripped, the cores are joined and the optional levels re-applied,
      except when the joined core is AnyStruct/AnyResource (they already contain nil);
-   - different cores join to AnyStruct when one of them is AnyStruct or a struct (two hashable
-     primitives would join to HashableStruct, which is outside the fragment).
+   - different struct-kinded cores join to AnyStruct, except two hashable primitives (they join to
+     HashableStruct / Integer) and two arrays or two dictionaries (element-wise joins), which are
+     outside the fragment.
    The checker re-validates the result with [subtype] (as LeastCommonSuperType's sanity check does). *)
 Definition join (a b : ty) : option ty :=
   if ty_eqb a b then Some a else
@@ -63,8 +68,7 @@ Definition join (a b : ty) : option ty :=
        | _, TNever => rewrap ca
        | _, _ =>
          if kle (kind_of ca) KS && kle (kind_of cb) KS &&
-            ((is_any ca || is_any cb) ||
-             ((is_struct ca || is_struct cb) && (is_struct ca || is_prim ca) && (is_struct cb || is_prim cb)))
+            negb (is_prim ca && is_prim cb) && negb (same_container ca cb)
          then Some TAnyS else None
        end.
 
@@ -213,8 +217,8 @@ Section check.
       end
     | EForce a =>
       match check_expr G inv a with
-      | Some (a', TOpt t, i1) => Some (EForce a', t, i1)
-      | _ => None
+      | Some (a', ta, i1) => Some (EForce a', match ta with TOpt t => t | _ => ta end, i1)
+      | None => None
       end
     | EMember a f _ =>
       match check_expr G inv a with
